@@ -91,6 +91,7 @@ type ReplayResult struct {
 	Panicked bool
 	Done     bool
 	Mismatch bool
+	TapeEnd  bool
 	Timeout  bool
 }
 
@@ -140,6 +141,8 @@ func (r *Replayer) RunFile(bin, harness, tapeFile string) (*ReplayResult, error)
 			res.Panicked = true
 		case strings.HasPrefix(ln, "VF-DONE"):
 			res.Done = true
+		case strings.HasPrefix(ln, "VF-TAPE-END"):
+			res.TapeEnd = true
 		case strings.HasPrefix(ln, "VF-TAPE-MISMATCH") || strings.HasPrefix(ln, "VF-ASSUME-FAIL") || strings.HasPrefix(ln, "VF-TAPE-ERROR"):
 			res.Mismatch = true
 		}
@@ -154,6 +157,10 @@ func Confirms(v interp.Violation, rr *ReplayResult) bool {
 	}
 	if v.Kind == "assert" {
 		return rr.Failed == v.What
+	}
+	if v.Kind == "race" {
+		// the schedule in the tape is executable: the native run followed it to the end of the tape
+		return !rr.Panicked && rr.Failed == "" && (rr.TapeEnd || rr.Done)
 	}
 	if !rr.Panicked {
 		return false
